@@ -1,0 +1,45 @@
+//! Read-only structural dump of `Archetypes`. Compiled only under `--cfg brood_verif`.
+
+use crate::{
+    archetypes::Archetypes,
+    registry::Registry,
+    world::verif::VerifArchetype,
+};
+use alloc::vec::Vec;
+
+impl<R> Archetypes<R>
+where
+    R: Registry,
+{
+    /// Returns the archetypes (in table order), the addresses of their identifier buffers (same
+    /// order), the addresses stored in the type-id lookup, and `(key address, value address)` for
+    /// the foreign identifier lookup.
+    pub(crate) fn verif_dump(
+        &self,
+    ) -> (
+        Vec<VerifArchetype>,
+        Vec<*const u8>,
+        Vec<*const u8>,
+        Vec<(*const u8, *const u8)>,
+    ) {
+        let mut archetypes = Vec::new();
+        let mut pointers = Vec::new();
+        for archetype in self.iter() {
+            archetypes.push(archetype.verif_dump());
+            // SAFETY: The identifier is only used while the archetype is borrowed.
+            pointers.push(unsafe { archetype.identifier() }.verif_pointer());
+        }
+        (
+            archetypes,
+            pointers,
+            self.type_id_lookup
+                .values()
+                .map(|identifier| identifier.verif_pointer())
+                .collect(),
+            self.foreign_identifier_lookup
+                .iter()
+                .map(|(key, identifier)| (key.as_ptr(), identifier.verif_pointer()))
+                .collect(),
+        )
+    }
+}
